@@ -43,9 +43,68 @@ def prt_count_for(tab, sat, kelvin):
     return best
 
 
+def file_route(ctx, tab):
+    """PLATFORM SWEEP through the readers: one 60-line file per spacecraft of either family (header id / platform code from the
+    user's guides, a date of its life).  Per thermal channel, one pixel carries exactly the internal-target count of THAT channel
+    (anchor: within 1 K of the smoothed PRT temperature, computed by the independent transcription), eight pixels carry a count
+    ramp - ascending for channels 3 and 4, DESCENDING for channel 5, so that no channel can pass with another channel's result."""
+    import io
+    import random
+    from . import filegen
+    for fmt in ("podGac", "klmGac"):
+        fam = filegen.FMT[fmt]["family"]
+        for k, (sid, pcode, sat, (yy, dd)) in enumerate(filegen.PLATFORMS[fam]):
+            n = 60
+            pb, _ = filegen.platform_pass(ctx, fmt, n, random.Random(repr(("c13file", fmt, k, ctx.seed))), k, n0=1 + k % 5)
+            ictc = [380, 410, 420]
+            ramp = np.array([250, 300, 340, 390, 450, 520, 600, 700])
+            for ci in range(3):
+                col = 2 + ci
+                pb.samples[:, 5 * 0 + col] = ictc[ci] + (0 if ci != 1 else 30)       # pixel 0 anchors channels 3 and 5
+                pb.samples[:, 5 * 9 + col] = ictc[ci] + (0 if ci == 1 else -30)      # pixel 9 anchors channel 4
+                for j in range(8):
+                    pb.samples[:, 5 * (1 + j) + col] = ramp[j] if ci < 2 else ramp[7 - j]
+            payload = {"stream": "file-route", "fmt": fmt, "platform": k, "spacecraft": sat}
+            try:
+                with warnings.catch_warnings():
+                    warnings.simplefilter("ignore")
+                    r = filegen.make_reader(ctx, fmt, data=pb.tobytes(), name=pb.dsname, adjust_clock_drift=False)
+                    ch = np.asarray(r.get_calibrated_channels())
+                    prt, ict, space = [np.asarray(x, dtype=float) for x in r.get_telemetry()]
+            except Exception as e:
+                ctx.violation("%s file of %s: calibration raised %s: %s" % (fmt, sat, type(e).__name__, e), payload,
+                              cls="file-route:raises:%s" % type(e).__name__)
+                continue
+            nums = [int(x) for x in r.scans["scan_line_number"]]
+            fr = lambda a: [Fraction(float(x)).limit_denominator(10 ** 6) for x in a]      # noqa
+            for ci, chan in enumerate((3, 4, 5)):
+                want = c05.oracle(tab[sat], chan, nums, fr(prt), fr(ict[:, ci]), fr(space[:, ci]), [0])
+                if want[0] != "ok":
+                    continue
+                tprt = np.array([float(t) for t in want[2]])
+                bt = ch[:, :, ci - 3]
+                apix = 9 if ci == 1 else 0
+                dev = np.abs(bt[:, apix] - tprt)
+                if not np.all(np.isfinite(bt[:, apix])) or dev.max() > 1.0:
+                    i = int(np.nanargmax(np.where(np.isfinite(dev), dev, np.inf)))
+                    ctx.violation("%s file of %s, channel %d line %d: a scene count equal to the internal-target count (%d) reads %.3f K, the "
+                                  "smoothed PRT temperature is %.3f K" % (fmt, sat, chan, i, ictc[ci], bt[i, apix], tprt[i]), payload,
+                                  cls="file-route:anchor")
+                cnts = ramp if ci < 2 else ramp[::-1]
+                order = np.argsort(cnts)
+                rows = bt[:, 1:9][:, order]
+                inc = np.diff(rows, axis=1) > 1e-9
+                if np.any(inc & np.isfinite(np.diff(rows, axis=1))):
+                    i = int(np.nonzero(inc.any(axis=1))[0][0])
+                    ctx.violation("%s file of %s, channel %d line %d: BT increases with the channel's own count (counts %s -> %s K)" % (
+                        fmt, sat, chan, i, np.sort(cnts).tolist(), np.round(rows[i], 3).tolist()), payload, cls="file-route:monotone")
+                ctx.case((fmt, sat, chan, "file-route"), nontrivial=True, branch="file-route/%s" % fam)
+
+
 def run(ctx):
     rng = ctx.rng
     tab = c05.table()
+    file_route(ctx, tab)
     sats = sorted(tab)
     lines, pend = [], []
     worst_anchor = 0.0
